@@ -51,6 +51,7 @@ type BatchEntry struct {
 type IndexChange struct {
 	Create *IndexSpec `json:"create,omitempty"`
 	Delete string     `json:"delete,omitempty"`
+	Update string     `json:"update,omitempty"` // UpdateGlobalSecondaryIndexAction (new throughput) on the named index
 }
 
 // Op is an abstract operation. One struct for all kinds keeps journals and replays simple.
